@@ -410,17 +410,71 @@ Example ex_stop_from_switch_callback :
 Proof. exact ex_own_stopper. Qed.
 Print Assumptions ex_stop_from_switch_callback.
 
-(* Finding 7 (known finding started-callback-of-earlier-start-runs-hook; replay corpus/C07/life.12.json).  The full statement
-     "the mode_start() hook runs once per stopped -> active transition"
-   is FALSE of the faithful model (and of the code): after  start, started, stop, stopped, clean-up, start, started  - one complete
-   cycle and a second start, both mode_<m>_started events posted, their two callbacks still outstanding, which is what a stop +
-   restart issued by handlers of mode_<m>_started produces - BOTH callbacks run the hook (status 1), because
-   _mode_started_callback only looks at _active. *)
+(* ---- Finding 7 (third pass): the mode_start() hook and the callbacks of mode_<m>_started ------------------------------------
+   Full statement (sentence 1 of the property, "one start = one run of the start sequence"): the hook runs exactly once per
+   stopped -> active transition.  The code as found runs it once per DELIVERED callback of mode_<m>_started while the mode is
+   active (start_hook_once_per_start_refuted below, replay corpus/C07/life.12.json).  The model (fx = true) describes the tree with
+   fixes/C07-stale-started-callback.patch: Mode._start_hook_pending, set by _started, cleared by the hook run and by _stopped. *)
+
+(* AT MOST ONCE, from ANY state and for ANY continuation: once the hook has run, no delivery of a started-callback of that mode
+   runs it again before _started runs again - no assumption about how many callbacks are outstanding, in which order they are
+   delivered, or what else happens in between (other modes, stops, restarts that are still starting, registrations). *)
+Theorem start_hook_once_per_start : forall s m h,
+  r_status (snd (step true s (CbStarted m))) = 1 ->
+  ~ In (QStarted m) h ->
+  r_status (snd (step true (fst (run_from true (fst (step true s (CbStarted m))) h)) (CbStarted m))) = 0.
+Proof. exact start_hook_once_per_start_l. Qed.
+Print Assumptions start_hook_once_per_start.
+
+(* AT LEAST ONCE, up to delivery (the bus is C02's): after an accepted _started the first started-callback delivered before the
+   mode's _stopped runs the hook, whatever happened in between, and the mode is in active_modes at that moment. *)
+Theorem started_mode_gets_hook_if_delivered : forall h0 m h,
+  ph (run_state true h0) m = Starting ->
+  ~ In (CbStarted m) h -> ~ In (QStopped m) h ->
+  let s2 := fst (run_from true (fst (step true (run_state true h0) (QStarted m))) h) in
+  r_status (snd (step true s2 (CbStarted m))) = 1 /\ is_act (ph s2 m) = true.
+Proof. exact started_mode_gets_hook_l. Qed.
+Print Assumptions started_mode_gets_hook_if_delivered.
+
+(* the hook never runs on a mode that is not in active_modes ... *)
+Theorem start_hook_only_on_active_mode : forall h m,
+  r_status (snd (step true (run_state true h) (CbStarted m))) = 1 -> is_act (ph (run_state true h) m) = true.
+Proof. exact hook_only_on_active_l. Qed.
+Print Assumptions start_hook_only_on_active_mode.
+
+(* ... and a started-callback that finds its mode stopped, winding up or starting again changes NOTHING (in particular it does
+   not touch what the current start set up) *)
+Theorem stale_started_callback_is_noop : forall h m,
+  is_act (ph (run_state true h) m) = false ->
+  step true (run_state true h) (CbStarted m) = (run_state true h, mkR 0 []).
+Proof. exact stale_started_callback_noop_l. Qed.
+Print Assumptions stale_started_callback_is_noop.
+
+(* _mode_started_callback never changes a phase, a priority, active_modes or the registry (either version of the code) *)
+Theorem started_callback_frame : forall fx s m,
+  let s' := fst (step fx s (CbStarted m)) in ph s' = ph s /\ pri s' = pri s /\ act s' = act s /\ reg s' = reg s.
+Proof. exact cbstarted_frame. Qed.
+Print Assumptions started_callback_frame.
+
+(* satisfiability: the history of finding 7 - two callbacks outstanding after stop + restart.  Fixed code: the first delivered
+   callback runs the hook, the second does not; a stop request, a callback while stopping / winding / starting again do not; the
+   next _started makes it due once more. *)
+Example ex_start_hook_once :
+  ph (run_state true ex_stale_started_hist) 0 = Active /\
+  statuses true (run_state true ex_stale_started_hist)
+    [CbStarted 0; CbStarted 0; Stop 0; CbStarted 0; QStopped 0; Start 0 10; CbStarted 0; QStarted 0; CbStarted 0; CbStarted 0]
+    = [1; 0; 1; 0; 1; 1; 0; 1; 1; 0] /\
+  statuses true (run_state true (firstn 4 ex_stale_started_hist)) [CbStarted 0] = [0].
+Proof. exact ex_hook_once. Qed.
+Print Assumptions ex_start_hook_once.
+
+(* the code as found (fx = false; replayed on /repo HEAD 58472c5 by corpus/C07/life.12.json): after  start, started, stop, stopped,
+   clean-up, start, started  BOTH outstanding callbacks run the hook, because _mode_started_callback only looked at _active. *)
 Theorem start_hook_once_per_start_refuted :
-  exists h m, let s := run_state true h in
+  exists h m, let s := run_state false h in
     ph s m = Active /\
-    proj m (run_events true h) = [0; 1; 2; 3; 4; 5; 0; 1; 2] /\
-    r_status (snd (step true s (CbStarted m))) = 1 /\
-    r_status (snd (step true (fst (step true s (CbStarted m))) (CbStarted m))) = 1.
+    proj m (run_events false h) = [0; 1; 2; 3; 4; 5; 0; 1; 2] /\
+    r_status (snd (step false s (CbStarted m))) = 1 /\
+    r_status (snd (step false (fst (step false s (CbStarted m))) (CbStarted m))) = 1.
 Proof. exact start_hook_once_refuted_l. Qed.
 Print Assumptions start_hook_once_per_start_refuted.
